@@ -425,8 +425,10 @@ impl ObjFileFormat for TextFormat {
                         }
                     }
     
-                    writeln!(buf, "====================")?;
                 }
+                // (the divider that closes the line table is written even when there is none:
+                // the reader tells the two tables of this section apart by the two dividers)
+                writeln!(buf, "====================")?;
             }
 
 
